@@ -8,8 +8,11 @@ def model_values(m, names):
     out = {}
     for n in names:
         try:
-            v = m.eval(z3.Real(n), model_completion=True)
-            if z3.is_rational_value(v):
+            v = m.eval(n if isinstance(n, z3.ExprRef) else z3.Real(n), model_completion=True)
+            n = str(n)
+            if z3.is_int_value(v):
+                out[n] = v.as_long()
+            elif z3.is_rational_value(v):
                 out[n] = float(v.as_fraction())
             elif z3.is_algebraic_value(v):
                 out[n] = float(v.approx(15).as_fraction())
